@@ -544,6 +544,7 @@ type server struct {
 	deletes    []int64
 	viaGet     []int64 // per delete: 1 if the controller had just fetched that job
 	lastGet    string
+	emptyNsGet bool
 }
 
 var errInjected = errors.New("injected create failure")
@@ -552,8 +553,10 @@ var gr = schema.GroupResource{Group: "batch.volcano.sh", Resource: "jobs"}
 func (s *server) GetJobClient(_ vcclientset.Interface, namespace, name string) (*batchv1.Job, error) {
 	s.lastGet = name
 	if namespace == "" && !s.lenient {
-		// client-go rest.Request refuses this before anything is sent
-		return nil, errors.New("an empty namespace may not be set when a resource name is provided")
+		// gentype sends a cluster-scoped GET for an empty namespace; the API server has no such
+		// route for a namespaced resource and answers 404
+		s.emptyNsGet = true
+		return nil, apierrors.NewNotFound(gr, name)
 	}
 	if namespace != "" && namespace != ns {
 		return nil, apierrors.NewNotFound(gr, name)
@@ -786,7 +789,7 @@ func runHistory(in []int64) []int64 {
 				return badInput
 			}
 			srv.now, srv.failCreate = now, fc
-			srv.creates, srv.deletes, srv.viaGet, srv.lastGet = nil, nil, nil, ""
+			srv.creates, srv.deletes, srv.viaGet, srv.lastGet, srv.emptyNsGet = nil, nil, nil, "", false
 			// the lister shows the API server's jobs
 			items := []interface{}{}
 			for _, o := range srv.jobs {
@@ -808,6 +811,9 @@ func runHistory(in []int64) []int64 {
 			}
 			rq, upd, serr := ctl.SyncCronJob(work, mine)
 			ec := errClass(serr)
+			if ec == 2 && srv.emptyNsGet {
+				ec = 4 // the conflicting job could not be fetched
+			}
 			if ec == 99 {
 				panic("unclassified error: " + serr.Error())
 			}
